@@ -266,7 +266,20 @@ def run(unit):
                       'field-of': ('MESSAGE', lambda n: A.HplFieldAccess(n, 'f'), lambda b_: b_.message), 'index-of': ('ARRAY', lambda n: A.HplArrayAccess(n, A.HplLiteral('0', 0)), lambda b_: b_.array),
                       'abs': ('NUMBER', lambda n: A.HplFunctionCall('abs', (n,)), lambda b_: b_.arguments[0]), 'len': ('ARRAY', lambda n: A.HplFunctionCall('len', (n,)), lambda b_: b_.arguments[0]),
                       'str': ('PRIMITIVE', lambda n: A.HplFunctionCall('str', (n,)), lambda b_: b_.arguments[0]), 'max': ('ARRAY', lambda n: A.HplFunctionCall('max', (n,)), lambda b_: b_.arguments[0]),
-                      'index': ('NUMBER', lambda n: A.HplArrayAccess(A.HplFieldAccess(A.HplThisMessage(), 'arr'), n), lambda b_: b_.index)}
+                      'index': ('NUMBER', lambda n: A.HplArrayAccess(A.HplFieldAccess(A.HplThisMessage(), 'arr'), n), lambda b_: b_.index),
+                      # the remaining operand slots with a parameter type: range bounds, both sides of an arithmetic, a relational
+                      # and a logical operator, the container of `in`, members of a set, the domain and the body of a quantifier
+                      'range-min': ('NUMBER', lambda n: A.HplRange(n, A.HplLiteral('9', 9)), lambda b_: b_.min_value), 'range-max': ('NUMBER', lambda n: A.HplRange(A.HplLiteral('0', 0), n), lambda b_: b_.max_value),
+                      'plus-left': ('NUMBER', lambda n: A.HplBinaryOperator('+', n, ONE()), lambda b_: b_.operand1), 'times-right': ('NUMBER', lambda n: A.HplBinaryOperator('*', ONE(), n), lambda b_: b_.operand2),
+                      'less-left': ('NUMBER', lambda n: A.HplBinaryOperator('<', n, ONE()), lambda b_: b_.operand1), 'geq-right': ('NUMBER', lambda n: A.HplBinaryOperator('>=', ONE(), n), lambda b_: b_.operand2),
+                      'and-left': ('BOOL', lambda n: A.HplBinaryOperator('and', n, TRU()), lambda b_: b_.operand1), 'implies-right': ('BOOL', lambda n: A.HplBinaryOperator('implies', TRU(), n), lambda b_: b_.operand2),
+                      'iff-left': ('BOOL', lambda n: A.HplBinaryOperator('iff', n, TRU()), lambda b_: b_.operand1), 'or-right': ('BOOL', lambda n: A.HplBinaryOperator('or', TRU(), n), lambda b_: b_.operand2),
+                      'in-container': (('ARRAY', 'RANGE', 'SET'), lambda n: A.HplBinaryOperator('in', ONE(), n), lambda b_: b_.operand2), 'set-member': ('PRIMITIVE', lambda n: A.HplSet((n, ONE())), lambda b_: b_.values[0]),
+                      'quantifier-domain': (('ARRAY', 'RANGE', 'SET'), lambda n: A.HplQuantifier('forall', 'i', n, A.HplFunctionCall('bool', (A.HplVarReference('@i'),))), lambda b_: b_.domain),
+                      'quantifier-body': ('BOOL', lambda n: A.HplQuantifier('forall', 'i', A.HplFieldAccess(A.HplThisMessage(), 'arr'), A.HplBinaryOperator('or', A.HplFunctionCall('bool', (A.HplVarReference('@i'),)), n)).condition, lambda b_: b_.operand2),
+                      'sum-arg': (('ARRAY', 'RANGE', 'SET'), lambda n: A.HplFunctionCall('sum', (n,)), lambda b_: b_.arguments[0]), 'sqrt-arg': ('NUMBER', lambda n: A.HplFunctionCall('sqrt', (n,)), lambda b_: b_.arguments[0])}
+            ONE = lambda: A.HplLiteral('1', 1)  # noqa: E731
+            TRU = lambda: A.HplLiteral('True', True)  # noqa: E731
             PRIMS = frozenset(('BOOL', 'NUMBER', 'STRING'))
             for pname, (ptype, build, child) in params.items():
                 for i in range(1, 128):
@@ -282,13 +295,13 @@ def run(unit):
                         got = 'TypeError'
                     except Exception as e:  # noqa: BLE001
                         got = 'raised ' + type(e).__name__
-                    pset = PRIMS if ptype == 'PRIMITIVE' else frozenset((ptype,))
+                    pset = PRIMS if ptype == 'PRIMITIVE' else frozenset(ptype) if isinstance(ptype, tuple) else frozenset((ptype,))
                     exp = 'ok' if a & pset else 'TypeError'
                     if got == 'ok' and exp == 'ok' and to_model(child(built).data_type) != a & pset:
-                        r.violation('an operand narrowed to a parameter type does not carry the intersection', {'op': 'expr-cast', 'node': pname, 'a': _w(a), 'b': ptype},
+                        r.violation('an operand narrowed to a parameter type does not carry the intersection', {'op': 'expr-cast', 'node': pname, 'a': _w(a), 'b': list(ptype) if isinstance(ptype, tuple) else ptype},
                                     f'{pname} around a field typed {_w(a)}: the stored operand is typed {_w(to_model(child(built).data_type))}', size=len(a))
                     if got != exp:
-                        r.violation('narrowing an operand to a parameter type does not follow the intersection', {'op': 'expr-cast', 'node': pname, 'a': _w(a), 'b': ptype}, f'{pname} around a field typed {_w(a)}: expected {exp}, got {got}', size=len(a))
+                        r.violation('narrowing an operand to a parameter type does not follow the intersection', {'op': 'expr-cast', 'node': pname, 'a': _w(a), 'b': list(ptype) if isinstance(ptype, tuple) else ptype}, f'{pname} around a field typed {_w(a)}: expected {exp}, got {got}', size=len(a))
             # two operands of = / != are narrowed to their common type set; three occurrences of one reference in a
             # predicate must share a base type (the intersection of all three, not only of neighbours)
             prim = [(i, M[i]) for i in range(1, 128) if M[i] <= frozenset(('BOOL', 'NUMBER', 'STRING'))]
@@ -528,7 +541,7 @@ def describe(tier):
         'rule': 'all 128 type sets; every ordered pair (cast, can_be, union); the seven can_be_* and derived members'
         + '; every triple for associativity / union of three; 24 x 24 pairs of named members, complements and unions each cast in a fresh interpreter (nothing materialised beforehand); long families (all non-empty subsets of every 2-4 base types, chains) for union'
         + '; union over 12 container kinds (list, tuple, iterator, generator, set, frozenset, dict, dict views, deque, reversed, map) x 128 sets x 4 family shapes'
-        + '; HplExpression.cast and can_be on field / variable / index nodes carrying every type set such a node can carry x all 128 targets; narrowing through 9 constructors (the stored operand must carry the intersection), a bound variable and a schema check; the two operands of = / != over every pair of sets of primitives; three occurrences of one reference in a predicate over every triple'
+        + '; HplExpression.cast and can_be on field / variable / index nodes carrying every type set such a node can carry x all 128 targets; narrowing through 27 operand slots of the constructors (unary and binary operators of each class, accessors, function arguments, range bounds, set members, the container of `in`, quantifier domain and body: the stored operand must carry the intersection), a bound variable and a schema check; the two operands of = / != over every pair of sets of primitives; three occurrences of one reference in a predicate over every triple'
         + '. A state is one tuple of type sets; a transition one call of the real DataType API; non-trivial = every tuple (all are distinct).',
         'bounds': {'type_sets': 128, 'tuple_arity': 3},
         'exhaustive': True,
